@@ -16,6 +16,9 @@ CONSTANTS
   Cancels = {"s1"}
   LegacyHoldLocks = FALSE
   LegacyNilLog = FALSE
+  PubRest <- NoRest
+  MutBatchPersistFirst = FALSE
+  MutBatchNoWait = FALSE
   MutPersistOutsideLock = FALSE
 INVARIANTS NoPanic OneUnsettled OneSenderPerPair NoSpuriousRedelivery OnlyOwnTopic BlockingReturn AfterClose NoStuckCall Complete
 
